@@ -67,6 +67,28 @@ pub fn norm_tmp(path: &str) -> String {
         .join("/")
 }
 
+/// Like `norm_tmp`, for free text (diagnostics quoting a path).
+pub fn norm_tmp_text(s: &str) -> String {
+    let b = s.as_bytes();
+    let mut out = String::with_capacity(s.len());
+    let mut i = 0;
+    while i < b.len() {
+        if b[i..].starts_with(b"/jaq")
+            && b.len() >= i + 10
+            && b[i + 4..i + 10].iter().all(|c| c.is_ascii_alphanumeric())
+            && b.get(i + 10).map_or(true, |c| !c.is_ascii_alphanumeric())
+        {
+            out.push_str("/jaq??????");
+            i += 10;
+        } else {
+            let ch = s[i..].chars().next().unwrap();
+            out.push(ch);
+            i += ch.len_utf8();
+        }
+    }
+    out
+}
+
 pub fn is_tmp_name(c: &str) -> bool {
     c.len() == 9 && c.starts_with("jaq") && c[3..].bytes().all(|b| b.is_ascii_alphanumeric())
 }
@@ -124,7 +146,7 @@ impl History {
         }
         h.write(format!("{:?}", self.exit).as_bytes());
         h.write(&self.stdout.0);
-        h.write(norm_tmp(&String::from_utf8_lossy(&self.stderr.0)).as_bytes());
+        h.write(norm_tmp_text(&String::from_utf8_lossy(&self.stderr.0)).as_bytes());
         for (p, f) in &self.files_after {
             h.write(norm_tmp(p).as_bytes());
             h.write(&f.bytes.0);
@@ -518,6 +540,9 @@ impl<'a> Run<'a> {
         let n = lex_norm(&abs);
         if n == self.root || n.starts_with(&format!("{}/", self.root)) {
             format!("{}{}", ROOT_TOKEN, &n[self.root.len()..])
+        } else if n != "/" && self.root.starts_with(&format!("{n}/")) {
+            // an ancestor of the sandbox (its name holds the harness' pid and worker number)
+            format!("{}^{}", ROOT_TOKEN, self.root[n.len()..].matches('/').count())
         } else {
             n
         }
@@ -1210,9 +1235,10 @@ pub fn run(sb: &Sandbox, w: &World) -> Result<History, TraceError> {
     let stdout = std::fs::read(sb.io.join("stdout")).unwrap_or_default();
     let stderr = std::fs::read(sb.io.join("stderr")).unwrap_or_default();
     let unroot = |b: Vec<u8>| -> Vec<u8> {
-        match String::from_utf8(b) {
-            Ok(s) => World::unsubst(&s, &root).into_bytes(),
-            Err(e) => e.into_bytes(),
+        if contains(&b, root.as_bytes()) {
+            replace_bytes(&b, root.as_bytes(), ROOT_TOKEN.as_bytes())
+        } else {
+            b
         }
     };
     let files_after = sb.snapshot();
@@ -1239,7 +1265,8 @@ pub fn scratch_base() -> PathBuf {
         .or_else(|| std::env::var_os("TMPDIR"))
         .map(PathBuf::from)
         .unwrap_or_else(|| PathBuf::from("/var/tmp"));
-    t.join(format!("vf-{}", std::process::id()))
+    // fixed width: the length of the sandbox path must not depend on the process id
+    t.join(format!("vf-{:07}", std::process::id()))
 }
 
 #[allow(dead_code)]
